@@ -266,7 +266,7 @@ class UTF8String(Type):
         super(UTF8String, self).__init__(name, 'UTF8String')
 
     def encode(self, data, _separator, _indent):
-        return u'"{}"'.format(data)
+        return u'"{}"'.format(data.replace('"', '""'))
 
 
 class NumericString(Type):
@@ -275,7 +275,7 @@ class NumericString(Type):
         super(NumericString, self).__init__(name, 'NumericString')
 
     def encode(self, data, _separator, _indent):
-        return u'"{}"'.format(data)
+        return u'"{}"'.format(data.replace('"', '""'))
 
 
 class PrintableString(Type):
@@ -284,7 +284,7 @@ class PrintableString(Type):
         super(PrintableString, self).__init__(name, 'PrintableString')
 
     def encode(self, data, _separator, _indent):
-        return u'"{}"'.format(data)
+        return u'"{}"'.format(data.replace('"', '""'))
 
 
 class IA5String(Type):
@@ -293,7 +293,7 @@ class IA5String(Type):
         super(IA5String, self).__init__(name, 'IA5String')
 
     def encode(self, data, _separator, _indent):
-        return u'"{}"'.format(data)
+        return u'"{}"'.format(data.replace('"', '""'))
 
 
 class VisibleString(Type):
@@ -302,7 +302,7 @@ class VisibleString(Type):
         super(VisibleString, self).__init__(name, 'VisibleString')
 
     def encode(self, data, _separator, _indent):
-        return u'"{}"'.format(data)
+        return u'"{}"'.format(data.replace('"', '""'))
 
 
 class GeneralString(Type):
@@ -311,7 +311,7 @@ class GeneralString(Type):
         super(GeneralString, self).__init__(name, 'GeneralString')
 
     def encode(self, data, _separator, _indent):
-        return u'"{}"'.format(data)
+        return u'"{}"'.format(data.replace('"', '""'))
 
 
 class BMPString(Type):
@@ -320,7 +320,7 @@ class BMPString(Type):
         super(BMPString, self).__init__(name, 'BMPString')
 
     def encode(self, data, _separator, _indent):
-        return u'"{}"'.format(data)
+        return u'"{}"'.format(data.replace('"', '""'))
 
 
 class GraphicString(Type):
@@ -329,7 +329,7 @@ class GraphicString(Type):
         super(GraphicString, self).__init__(name, 'GraphicString')
 
     def encode(self, data, _separator, _indent):
-        return u'"{}"'.format(data)
+        return u'"{}"'.format(data.replace('"', '""'))
 
 
 class UniversalString(Type):
@@ -338,7 +338,7 @@ class UniversalString(Type):
         super(UniversalString, self).__init__(name, 'UniversalString')
 
     def encode(self, data, _separator, _indent):
-        return u'"{}"'.format(data)
+        return u'"{}"'.format(data.replace('"', '""'))
 
 
 class TeletexString(Type):
@@ -347,7 +347,7 @@ class TeletexString(Type):
         super(TeletexString, self).__init__(name, 'TeletexString')
 
     def encode(self, data, _separator, _indent):
-        return u'"{}"'.format(data)
+        return u'"{}"'.format(data.replace('"', '""'))
 
 
 class ObjectDescriptor(GraphicString):
